@@ -69,7 +69,7 @@ func c06Arc(c *run.Ctx, idx uint64) {
 	if lattice {
 		w, h = int(vw)*r.Pick(1, 2, 3, 4, 8), int(vh)*r.Pick(1, 2, 3, 4, 8)
 	}
-	rect := image.Rect(0, 0, w, h).Add(image.Pt(r.Intn(50), r.Intn(50)))
+	rect := image.Rect(0, 0, w, h).Add(image.Pt(r.Range(-30, 50), r.Range(-30, 50))) // origins of either sign
 	sx, sy := float64(w)/vw, float64(h)/vh
 	mx, my := float64(vb.MinX), float64(vb.MinY)
 
